@@ -336,6 +336,14 @@ func init() {
 			for _, n := range names {
 				os.Link(filepath.Join(src, n), filepath.Join(dst, n))
 			}
+		case "destlink":
+			// the destination already holds a symbolic link named like the first listed file, pointing at a file OUTSIDE
+			// the two directories
+			dest = dst
+			os.MkdirAll(dst, 0755)
+			os.MkdirAll(filepath.Join(root, "outside"), 0755)
+			ioutil.WriteFile(filepath.Join(root, "outside", "precious"), []byte("precious"), 0644)
+			os.Symlink("../outside/precious", filepath.Join(dst, names[0]))
 		}
 		var run func() error
 		var filename func() string
@@ -365,7 +373,7 @@ func init() {
 			res = "err"
 		}
 		entries := []string{}
-		for _, d := range [][2]string{{"S", src}, {"D", dst}} {
+		for _, d := range [][2]string{{"S", src}, {"D", dst}, {"outside", filepath.Join(root, "outside")}} {
 			fis, _ := ioutil.ReadDir(d[1])
 			for _, fi := range fis {
 				b, _ := ioutil.ReadFile(filepath.Join(d[1], fi.Name()))
